@@ -162,6 +162,9 @@ type H struct {
 	forceSpare int
 	nprobes    int
 	nprobesOK  int
+	nnested    int
+	nestedSeen map[string]bool
+	roProbes   int
 }
 
 func (h *H) arena() *arena { return &arena{r: h.r, force: h.forceSpare} }
@@ -588,6 +591,9 @@ func main() {
 
 	// ---- aliasing probes of every exported decoder entry point ----
 	h.probes(mult)
+
+	// ---- caller memory behind nested interface-typed fields ----
+	h.nested(mult)
 
 	// ---- no hidden shared state, over histories ----
 	h.history(mult)
